@@ -36,6 +36,8 @@ type Scenario struct {
 	Check func(e *vs.Exec) (string, []Viol)
 	// MaxExecs caps the exploration of this scenario (0 = none); hitting it is reported.
 	MaxExecs int64
+	// DefaultOnly: explore the default schedule only (volume scenarios)
+	DefaultOnly bool
 	// Shards > 1 splits the scenario's choice tree over that many work items (big scenarios).
 	Shards         int
 	shard, nshards int
@@ -91,7 +93,7 @@ func runScenario(id string, s *Scenario, out *workerOut, deadline time.Time) {
 	if d := time.Now().Add(PerScenario); deadline.IsZero() || d.Before(deadline) {
 		deadline = d
 	}
-	x := &vs.Explorer{Opt: s.Opt, Bound: s.Bound, Prune: s.Prune && s.Bound < 0, MaxExecs: s.MaxExecs, Deadline: deadline, Shard: s.shard, NShards: s.nshards, Deviations: s.Deviations}
+	x := &vs.Explorer{Opt: s.Opt, Bound: s.Bound, Prune: s.Prune && s.Bound < 0, MaxExecs: s.MaxExecs, Deadline: deadline, Shard: s.shard, NShards: s.nshards, Deviations: s.Deviations, DefaultOnly: s.DefaultOnly}
 	seenKey := map[string]bool{}
 	tried := map[string]int{}
 	x.Check = func(e *vs.Exec) string {
